@@ -182,6 +182,7 @@ def run(ctx):
     rng = ctx.rng
     float_conversion_probe(ctx)
     float_expr_layer(ctx, 40 if quick else 160, 8 if quick else 30)
+    float32_expr_layer(ctx, 20 if quick else 80, 6 if quick else 20)
     tables = json.loads(ctx.hook_call(["tables"]))
     g = G(rng, tables["common_type"])
     nrec, ncf = (3, 14) if quick else (10, 24)
@@ -201,6 +202,10 @@ def run(ctx):
                 ty = g.bin_type(INTS[a], g.bin_type(INTS[b], INTS[cc]) or "x") if g.bin_type(INTS[b], INTS[cc]) else None
                 if not ty:
                     t, ty = ("b", "-", ("f", 4), ("b", "-", ("f", 2), ("f", 0))), "int32"
+            if c == 6 and r == 0:   # fixed witnesses of the two recorded integer findings (reported on every run, whatever the seed)
+                t, ty = ("n", ("f", 3)), "uint16"
+            if c == 7 and r == 0:
+                t, ty = ("b", "/", ("f", 4), ("f", 0)), "int32"
             if t[0] != "b" and t[0] != "n":
                 t, ty = ("b", "+", t, ("l", 1)), g.bin_type(ty, "uint8")
                 if not ty:
@@ -236,6 +241,7 @@ def run(ctx):
             s, w = INTW[t]
             vs.append(rng.choice([0, 1, 2, 3, 5, 7, 11, 100, 127] + ([-1, -2, -7, -100] if s else [200, 255])))
         valsets.append(vs)
+    valsets[0] = [2, 3, -7, 7, -7, 5, -100, 11, 3]
     big_from = len(valsets)
     for _ in range(3 if quick else 10):
         vs = []
@@ -511,6 +517,136 @@ def float_expr_layer(ctx, n_exprs, n_valsets):
                        "rounded value (python bits %s, c++ bits %s)" % (text(t), [repr(d) for d in ds], ie, who, pv, cv),
                        {"expression": text(t), "fields": dict(zip(FD, [repr(d) for d in ds])), "ie": ie, "python_bits": pv,
                         "cpp_bits": cv, "model": pkg.yaml()})
+
+
+def float32_expr_layer(ctx, n_exprs, n_valsets):
+    """float32-typed computed fields over four float32 fields: generated C++ computes in `float`, generated Python holds the fields
+    as Python floats and computes in double; both are compared with Model.FloatExpr (feval32, and feval on the widened operands);
+    where the two values differ as real numbers the property is violated (known finding float32-arithmetic-in-double)"""
+    import struct
+    rng = ctx.rng
+    FS = ["sa", "sb", "sc", "sd"]
+
+    def gen(depth):
+        if depth == 0 or rng.random() < 0.3:
+            return ("d", rng.randrange(4))
+        if rng.random() < 0.1:
+            return ("n", gen(depth - 1))
+        return ("b", rng.choice("+-*/"), gen(depth - 1), gen(depth - 1))
+
+    def text(t):
+        if t[0] == "d":
+            return FS[t[1]]
+        if t[0] == "n":
+            return "-(%s)" % text(t[1])
+        return "(%s %s %s)" % (text(t[2]), t[1], text(t[3]))
+
+    def coq(t):
+        if t[0] == "d":
+            return "FField %d" % t[1]
+        if t[0] == "n":
+            return "FNeg (%s)" % coq(t[1])
+        return "FBin %s (%s) (%s)" % ({"+": "FAdd", "-": "FSub", "*": "FMul", "/": "FDiv"}[t[1]], coq(t[2]), coq(t[3]))
+    trees = [("b", "+", ("d", 0), ("d", 1)), ("b", "*", ("d", 0), ("d", 1)), ("b", "/", ("d", 0), ("d", 2))]
+    while len(trees) < n_exprs:
+        t = gen(rng.choice([1, 2, 2, 3]))
+        if t[0] in ("b", "n"):
+            trees.append(t)
+    names = ["g" + "abcdefghijklmnopqrstuvwxyz"[k // 26] + "abcdefghijklmnopqrstuvwxyz"[k % 26] for k in range(len(trees))]
+    pkg = Package("Cfw")
+    pkg.defs.append(("Rs", "Rs: !record\n  fields:\n" + "".join("    %s: float32\n" % f for f in FS) + "  computedFields:\n" +
+                     "\n".join("    %s: %s" % (n, text(t)) for n, t in zip(names, trees))))
+    pkg.protocols.append(("Pz", [("s", __import__("ymodel").prim("int32"), False)]))
+    gp = genrun.GenPackage(ctx, pkg, "cfw", ndjson=False, cpp=True)
+    if not gp.generate():
+        raise RuntimeError("yardl rejected the float32 computed-field package:\n%s\n%s" % (gp.gen_out[-1500:], pkg.yaml()))
+    hdr = open(os.path.join(gp.dir, "cpp", "generated", "types.h")).read()
+    for n, t in zip(names, trees):
+        m = re.search(r"\n  ([\w:<> ]+?) %s\(\) const \{" % (n[0].upper() + n[1:]), hdr)
+        if not m or m.group(1).strip() != "float":
+            ctx.report("float-static-type", "computed field `%s` over float32 operands is declared %s in C++ (float32 expected)"
+                       % (text(t), m.group(1) if m else None), {"expression": text(t), "model": pkg.yaml()})
+            return
+    EDGE = [0.0, 1.0, 2.0, 7.0, -7.0, 0.1, 0.2, 0.5, 1.0 / 3, 3.5, 16777216.0, 1e30, -1e30, 1e-40]
+
+    def f32(x):
+        return struct.unpack("<I", struct.pack("<f", x))[0]
+    valsets = [[f32(rng.choice(EDGE) if rng.random() < 0.6 else rng.uniform(-1000, 1000)) for _ in range(4)] for _ in range(n_valsets)]
+    valsets[0] = [f32(0.1), f32(0.2), f32(3.0), f32(7.0)]
+    prog = ["import sys, json, struct", "sys.path.insert(0, %r)" % os.path.join(gp.dir, "python"), "import cfw", "out = {}",
+            "def bits(x):\n    x = float(x)\n    return -1 if x != x else struct.unpack('<Q', struct.pack('<d', x))[0]"]
+    for vi, vs in enumerate(valsets):
+        prog.append("r = cfw.Rs(%s)" % ", ".join("%s=struct.unpack('<f', struct.pack('<I', %d))[0]" % (f, b) for f, b in zip(FS, vs)))
+        for n in names:
+            prog.append("try:\n    out['%d %s'] = bits(r.%s())\nexcept Exception as e:\n    out['%d %s'] = 'ERR:' + type(e).__name__" % (vi, n, n, vi, n))
+    prog.append("print(json.dumps(out))")
+    open(os.path.join(gp.dir, "runw.py"), "w").write("\n".join(prog))
+    rc, o, e = sh([PY_VT, "-W", "ignore", os.path.join(gp.dir, "runw.py")], timeout=300)
+    if rc != 0:
+        raise RuntimeError("generated Python float32 computed fields failed to run: " + e[-1500:])
+    pyres = json.loads(o)
+    cpp = ['#include <iostream>', '#include <cstring>', '#include <cstdint>', '#include <cmath>', '#include "generated/types.h"',
+           "static long long bits(float x) { if (std::isnan(x)) return -1; uint32_t u; std::memcpy(&u, &x, 4); return (long long)u; }",
+           "static float fromb(uint32_t u) { float x; std::memcpy(&x, &u, 4); return x; }", "int main() {"]
+    for vi, vs in enumerate(valsets):
+        cpp.append("  { cfw::Rs r; %s" % " ".join("r.%s = fromb(%dU);" % (f, b) for f, b in zip(FS, vs)))
+        for n in names:
+            cpp.append('    std::cout << "%d %s " << bits(r.%s()) << "\\n";' % (vi, n, n[0].upper() + n[1:]))
+        cpp.append("  }")
+    cpp += ["  return 0;", "}"]
+    cdir = os.path.join(gp.dir, "cpp")
+    open(os.path.join(cdir, "cfw.cc"), "w").write("\n".join(cpp))
+    rc, o, e = sh(["g++", "-std=c++17", "-O0", "-w", "-I", genrun.SHIMS, "-I", "generated", "cfw.cc", "generated/types.cc", "-o", "cfw"],
+                  cwd=cdir, timeout=900)
+    if rc != 0:
+        ctx.report("cpp-compile", "generated C++ with float32 computed fields does not compile", {"model": pkg.yaml(), "error": e[-2000:]})
+        return
+    rc, o, e = sh([os.path.join(cdir, "cfw")], timeout=120)
+    cppres = {}
+    for ln in o.strip().split("\n"):
+        a, b, v = ln.split()
+        cppres["%s %s" % (a, b)] = int(v)
+    cases, meta = [], []
+    for vi, vs in enumerate(valsets):
+        for n, t in zip(names, trees):
+            key = "%d %s" % (vi, n)
+            pv, cv = pyres.get(key), cppres.get(key)
+            if isinstance(pv, str) or cv is None:
+                ctx.count("float32_python_exception", str(pv))
+                continue
+            cases.append("([%s], %s, (%d), (%d))" % ("; ".join(map(str, vs)), coq(t), pv, cv))
+            meta.append((n, t, vs, pv, cv))
+    shards = [list(range(i, min(i + 150, len(cases)))) for i in range(0, len(cases), 150)]
+
+    def ev(idx):
+        body = ("From Coq Require Import List NArith ZArith Bool.\nImport ListNotations.\nOpen Scope Z_scope.\n"
+                "From YV Require Import Model.FloatExpr.\n"
+                "Definition cases : list f32case := [\n " + ";\n ".join(cases[i] for i in idx) + "\n].\n"
+                "Definition ST := Eval vm_compute in map f32case_status cases.\nPrint ST.\n"
+                "Definition SM := Eval vm_compute in map (fun c => if f32case_same c then 1%N else 0%N) cases.\nPrint SM.\n")
+        out = ctx.coq_eval("f32_%d" % idx[0], body, timeout=1500)
+        return Ctx.parse_nat_list(out, "ST"), Ctx.parse_nat_list(out, "SM")
+    with ThreadPoolExecutor(max_workers=8) as ex:
+        res = list(ex.map(ev, shards))
+    st = [x for r in res for x in r[0]]
+    sm = [x for r in res for x in r[1]]
+    for (n, t, vs, pv, cv), s_, same in zip(meta, st, sm):
+        ctx.case(("float32", text(t), tuple(vs)), nontrivial=True,
+                 sample={"expression": text(t), "field_bits": vs, "python_double_bits": pv, "cpp_float_bits": cv,
+                         "as_modelled": s_ == 0, "same_real_value": bool(same)})
+        ctx.count("float32_same_value_in_both_languages", str(bool(same)))
+        if s_ != 0:
+            who = {1: "generated Python (double arithmetic on the widened operands expected)", 2: "generated C++ (float arithmetic expected)",
+                   3: "generated Python and C++"}[s_]
+            ctx.report("float32-model-differs:%d" % s_, "float32 computed field `%s` on bit patterns %s: %s differ(s) from Model.FloatExpr "
+                       "(python double bits %s, c++ float bits %s)" % (text(t), vs, who, pv, cv),
+                       {"expression": text(t), "field_bits": vs, "python_bits": pv, "cpp_bits": cv, "model": pkg.yaml(),
+                        "broken": "correspondence Model.FloatExpr.feval32 / feval vs generated computed fields"}, no_input=True)
+        elif not same:
+            ctx.report("float32-arithmetic-in-double", "float32 computed field `%s` on %s is %s in generated C++ (float arithmetic) and %s in "
+                       "generated Python (double arithmetic)" % (text(t), [struct.unpack("<f", struct.pack("<I", b))[0] for b in vs],
+                       struct.unpack("<f", struct.pack("<I", cv))[0] if cv >= 0 else "nan", struct.unpack("<d", struct.pack("<Q", pv))[0] if pv >= 0 else "nan"),
+                       {"expression": text(t), "field_bits": vs, "python_bits": pv, "cpp_bits": cv, "model": pkg.yaml()})
 
 
 def float_conversion_probe(ctx):
